@@ -291,6 +291,12 @@ func run(ci any, r *mon.Rec) {
 				x.verdict(out, "stall", min(p, L-1), "zero-read-timeout")
 			}
 		}
+		// the connection dies right after the request was written (closed locally, cable pulled): the deadline setter fails
+		// before the read does - still an I/O failure, reported as the client error wrapping the cause
+		if c.Client != clientx.Serial {
+			out := clientx.Run(c.Client, req, xport.Script{Reply: reply, DeadConn: true, Tail: "inject"}, opt)
+			x.verdict(out, "inject", 0, "dead-connection")
+		}
 		// nil request: error before any transport call
 		out = clientx.Run(c.Client, nil, xport.Script{Reply: reply, Steps: xport.Cuts(L, nil, 0), Tail: "deadline"}, opt)
 		r.Eval(1)
